@@ -75,7 +75,7 @@ def const_from_node(node, src=None):
 
 class Evaluator:
     def __init__(self, env=None, cond=None, src=None, funcs=None, attr_erase=(), subscript=None,
-                 store_accept=None, call=None, erase_subscripts=True, pinned=None):
+                 store_accept=None, call=None, erase_subscripts=True, pinned=None, binop=None):
         self.env = dict(env or {})
         self.pinned = dict(pinned or {})
         self.env.update(self.pinned)
@@ -86,6 +86,7 @@ class Evaluator:
             self.funcs.update(funcs)
         self.subscript = subscript
         self.call_hook = call
+        self.binop_hook = binop
         self.store_accept = store_accept or (lambda name, idx, node: False)
         self.stores = []  # (name, idxtext, value, node)
         self.returns = []
@@ -149,6 +150,10 @@ class Evaluator:
                 return tot
             if isinstance(a, tuple) or isinstance(b, tuple):
                 return _vec_binop(node.op, a, b)
+            if self.binop_hook is not None:
+                r = self.binop_hook(node, a, b, self)
+                if r is not NotImplemented:
+                    return r
             a, b = need(a), need(b)
             op = node.op
             if isinstance(op, ast.Add):
@@ -277,6 +282,8 @@ class Evaluator:
                 nv = cur if is_unknown(cur) else v
             elif isinstance(cur, tuple) or isinstance(v, tuple):
                 nv = _vec_binop(st.op, cur, v)
+            elif self.binop_hook is not None and self.binop_hook(ast.BinOp(left=st.target, op=st.op, right=st.value), cur, v, self) is not NotImplemented:
+                nv = self.binop_hook(ast.BinOp(left=st.target, op=st.op, right=st.value), cur, v, self)
             else:
                 try:
                     nv = _binop(st.op, need(cur), need(v))
